@@ -304,7 +304,7 @@ def c14(tier, seed):
     # vacuity: both branches of the primal-dual scaling and all three kinds of event must have been seen
     fam = meta.get("by_family", {})
     if not (meta.get("pd_secant", 0) > 0 and meta.get("pd_fallback", 0) > 0 and fam.get("lattice_membership", 0) > 0
-            and all(fam.get(f"{c}:{k}", 0) > 0 for c in ("Exp", "Pow", "GenPow") for k in ("calculus", "membership", "central", "near_boundary"))):
+            and all(fam.get(f"{c}:{k}", 0) > 0 for c in ("Exp", "Pow", "GenPow") for k in ("calculus", "membership", "central", "near_boundary", "near_boundary_dual"))):
         raise ToolError(f"C14 recorder did not exercise every family: {meta}")
     res.coverage = {"states": nw["states"], "transitions": nw["transitions"], "evaluations": v["events"], "distinct_nontrivial": v["events"],
                     "rule": "one evaluation = (a) one nonsymmetric cone (exponential; power with alpha in [0.08, 0.93]; generalised power with 2-3 exponents and 1-3 tail entries) at a generated "
